@@ -50,6 +50,10 @@ Definition opt_zlist_eqb (m : option (list Z)) (impl : list Z) : bool :=
 Definition vals_of (first : Z) (dict : list bytes) (tids : list Z) : list bytes :=
   map (tok first dict) tids.
 
+(* the supplied oracle satisfies the hypothesis of the theorems (keys of finite floats) *)
+Definition keys_ok (keys : list (bytes * Z)) : bool :=
+  forallb (fun kv => Z.leb (- maxkey) (snd kv) && Z.leb (snd kv) maxkey) keys.
+
 (* model output = implementation output *)
 Definition case_agrees (c : case) : bool :=
   match c with
@@ -57,8 +61,10 @@ Definition case_agrees (c : case) : bool :=
   | CSeq s ps impl =>
       match find_sequence s ps with Some k => Z.eqb (Z.of_nat k) impl | None => false end
   | CSearch ordered first keys dict qs =>
+      keys_ok keys &&
       forallb (fun qi => opt_zlist_eqb (search (lookup keys) ordered first dict (fst qi)) (snd qi)) qs
   | CSealed first keys entries qs =>
+      keys_ok keys &&
       forallb (fun qi => opt_zlist_eqb (sealed_search (lookup keys) first entries (fst qi)) (snd qi)) qs
   | CFrac keys tokens qs =>
       forallb (fun qi =>
